@@ -8,7 +8,7 @@ import CelloProofs.Lemmas.FmtCalls
 
 namespace Cello.Fmt
 
-variable (cfg : Cfg) (prim : Str → PVal → Str) (shw : Obj → Out → Out × Outcome)
+variable (cfg : Cfg) (prim : Prim) (shw : Obj → Out → Out × Outcome)
 
 /-- a non-empty run of ordinary characters -/
 def isLitFmt (s : Str) : Bool := !s.isEmpty && s.all ordinary
@@ -20,9 +20,12 @@ theorem isLitFmt_wf {conv : Str} {s : Str} (h : isLitFmt s = true) : wfSegs conv
 
 /-- `print_to(out, pos, "literal")` is one `format_to` call with the literal -/
 theorem print_lit (hpct : '%' ∉ cfg.conv) (s : Str) (hs : isLitFmt s = true) (args : List Obj) (o : Out) :
-    (printToWith cfg prim shw s args o).pair = (o.formatTo prim s .none, .ok) := by
+    (printToWith cfg prim shw s args o).pair = o.call prim s .none := by
   have := printToWith_pair cfg prim shw args hpct [.lit s] (isLitFmt_wf hs) o
-  simpa [render, Seg.text, refRun] using this
+  simp only [render, Seg.text, List.map_cons, List.map_nil, List.flatten_cons, List.flatten_nil, List.append_nil, refRun] at this
+  rw [this]
+  rcases o.call prim s .none with ⟨o', oc⟩
+  cases oc <;> rfl
 
 /-- `print_to(out, pos, "%$", a)` is `show_to(a, out, pos)` -/
 theorem print_show (hpct : '%' ∉ cfg.conv) (hd : '$' ∈ cfg.conv) (hf : firing cfg '$' = [.show]) (a : Obj) (o : Out) :
@@ -48,7 +51,7 @@ theorem print_show (hpct : '%' ∉ cfg.conv) (hd : '$' ∈ cfg.conv) (hf : firin
 def showItemsSpec (sep : Str) : List Obj → Out → Out × Outcome
   | [], o => (o, .ok)
   | [a], o => shw a o
-  | a :: b :: r, o => andThen (shw a) (andThen (fun o => (o.formatTo prim sep .none, .ok)) (showItemsSpec sep (b :: r))) o
+  | a :: b :: r, o => andThen (shw a) (andThen (fun o => o.call prim sep .none) (showItemsSpec sep (b :: r))) o
 
 theorem showItems_eq (hpct : '%' ∉ cfg.conv) (hd : '$' ∈ cfg.conv) (hf : firing cfg '$' = [.show])
     (sep : Str) (hsep : isLitFmt sep = true) :
@@ -72,9 +75,9 @@ theorem showD_tuple (hpct : '%' ∉ cfg.conv) (hd : '$' ∈ cfg.conv) (hf : firi
     (h1 : isLitFmt sc.tupOpen = true) (h2 : isLitFmt sc.tupSep = true) (h3 : isLitFmt sc.tupClose = true)
     (d : Nat) (items : List Obj) (o : Out) :
     showD cfg prim sc (d + 1) (.tuple items) o =
-      andThen (fun o => (o.formatTo prim sc.tupOpen .none, .ok))
+      andThen (fun o => o.call prim sc.tupOpen .none)
         (andThen (showItemsSpec prim (fun x o => showD cfg prim sc d x o) sc.tupSep items)
-          (fun o => (o.formatTo prim sc.tupClose .none, .ok))) o := by
+          (fun o => o.call prim sc.tupClose .none)) o := by
   simp only [showD, andThen, print_lit cfg prim _ hpct _ h1, print_lit cfg prim _ hpct _ h3,
     showItems_eq cfg prim _ hpct hd hf _ h2]
 
@@ -82,16 +85,23 @@ theorem showD_tuple (hpct : '%' ∉ cfg.conv) (hd : '$' ∈ cfg.conv) (hf : firi
 theorem print_ptr (hpct : '%' ∉ cfg.conv) (hf : firing cfg 'p' = [.obj]) (f pre post : Str)
     (hp : parseFmt cfg.conv f = some [.lit pre, .spec [] 'p', .lit post]) (a : Obj) (o : Out) :
     (printToWith cfg prim shw f [a] o).pair =
-      (((o.formatTo prim pre .none).formatTo prim ['%', 'p'] .ptr).formatTo prim post .none, .ok) := by
+      andThen (fun o => o.call prim pre .none)
+        (andThen (fun o => o.call prim ['%', 'p'] .ptr) (fun o => o.call prim post .none)) o := by
   obtain ⟨hr, hwf, _⟩ := parse_sound cfg.conv _ _ _ hp
   rw [← hr, printToWith_pair cfg prim shw [a] hpct _ hwf o]
-  simp only [refRun, List.getElem?_cons_zero, List.nil_append]
-  rw [dispatch_eq_runKinds]
-  change (match runKinds prim shw (firing cfg 'p') _ a _ with
-    | (o', Outcome.ok) => refRun cfg prim shw [a] [Seg.lit post] 1 o'
-    | bad => bad) = _
-  rw [hf]
-  simp [runKinds, action, refRun]
+  have hd : ∀ o, dispatch prim shw cfg.disp 'p' ['%', 'p'] a o = o.call prim ['%', 'p'] .ptr := by
+    intro o
+    rw [dispatch_eq_runKinds]
+    change runKinds prim shw (firing cfg 'p') _ a o = _
+    rw [hf, runKinds_single]
+    rfl
+  simp only [refRun, List.getElem?_cons_zero, List.nil_append, hd, andThen]
+  rcases o.call prim pre .none with ⟨o1, oc1⟩
+  cases oc1 <;> simp only []
+  rcases o1.call prim ['%', 'p'] .ptr with ⟨o2, oc2⟩
+  cases oc2 <;> simp only []
+  rcases o2.call prim post .none with ⟨o3, oc3⟩
+  cases oc3 <;> rfl
 
 /-- **Array_Show / List_Show**: `<'Array' At 0x` pointer ` [` items `]>` -/
 theorem showD_array (hpct : '%' ∉ cfg.conv) (hd : '$' ∈ cfg.conv) (hf : firing cfg '$' = [.show]) (hfp : firing cfg 'p' = [.obj])
@@ -99,9 +109,10 @@ theorem showD_array (hpct : '%' ∉ cfg.conv) (hd : '$' ∈ cfg.conv) (hf : firi
     (h2 : isLitFmt sc.arrSep = true) (h3 : isLitFmt sc.arrClose = true)
     (d : Nat) (items : List Obj) (o : Out) :
     showD cfg prim sc (d + 1) (.array items) o =
-      andThen (fun o => (((o.formatTo prim pre .none).formatTo prim ['%', 'p'] .ptr).formatTo prim post .none, .ok))
+      andThen (andThen (fun o => o.call prim pre .none)
+          (andThen (fun o => o.call prim ['%', 'p'] .ptr) (fun o => o.call prim post .none)))
         (andThen (showItemsSpec prim (fun x o => showD cfg prim sc d x o) sc.arrSep items)
-          (fun o => (o.formatTo prim sc.arrClose .none, .ok))) o := by
+          (fun o => o.call prim sc.arrClose .none)) o := by
   simp only [showD, andThen, print_ptr cfg prim _ hpct hfp _ pre post h1, print_lit cfg prim _ hpct _ h3,
     showItems_eq cfg prim _ hpct hd hf _ h2]
 
@@ -110,9 +121,10 @@ theorem showD_list (hpct : '%' ∉ cfg.conv) (hd : '$' ∈ cfg.conv) (hf : firin
     (h2 : isLitFmt sc.lstSep = true) (h3 : isLitFmt sc.lstClose = true)
     (d : Nat) (items : List Obj) (o : Out) :
     showD cfg prim sc (d + 1) (.list items) o =
-      andThen (fun o => (((o.formatTo prim pre .none).formatTo prim ['%', 'p'] .ptr).formatTo prim post .none, .ok))
+      andThen (andThen (fun o => o.call prim pre .none)
+          (andThen (fun o => o.call prim ['%', 'p'] .ptr) (fun o => o.call prim post .none)))
         (andThen (showItemsSpec prim (fun x o => showD cfg prim sc d x o) sc.lstSep items)
-          (fun o => (o.formatTo prim sc.lstClose .none, .ok))) o := by
+          (fun o => o.call prim sc.lstClose .none)) o := by
   simp only [showD, andThen, print_ptr cfg prim _ hpct hfp _ pre post h1, print_lit cfg prim _ hpct _ h3,
     showItems_eq cfg prim _ hpct hd hf _ h2]
 
